@@ -66,10 +66,10 @@ class Eval:
 
 def jsonable(x, depth=0):
     """Best-effort conversion of anything into JSON-able data (for details/samples)."""
-    if depth > 8:
-        return repr(x)[:200]
     if x is None or isinstance(x, (bool, int, str)):
         return x
+    if depth > 40:
+        return repr(x)[:200]
     if isinstance(x, float):
         if math.isnan(x):
             return "NaN"
